@@ -132,6 +132,7 @@ func runScenario(sc Scenario, dir string) ([]verif.Event, *RunResult) {
 				}
 				if _, err := r.newConsumer(t, c, p, rdy); err != nil {
 					res.Inconclusive = "consumer: " + err.Error()
+					res.Fails = r.fails // what was already observed stands
 					return nil, res
 				}
 			}
